@@ -9,7 +9,7 @@
     printer of the text the planner emits.  In the statements below the double-quote
     byte is written <dq>. *)
 From Coq Require Import List NArith Bool Arith.
-From Atlas Require Import Base.Bytes Sqlite.ExportModel Sqlite.ExportProofs.
+From Atlas Require Import Base.Bytes Diff.Schema Sqlite.PlanModel Sqlite.ExportModel Sqlite.ExportProofs Sqlite.ExportPrint Sqlite.ExportPrintProofs.
 Import ListNotations.
 Require Import Coq.Strings.String.
 Open Scope string_scope.
@@ -47,6 +47,72 @@ Example C03_regex_inverts_printer_nonvacuous :
   fill_checks (B "CREATE TABLE `t` (`a` int NULL, `b` text NULL" ++ checks_text w_cks ++ ch_rp :: B " STRICT") = w_cks.
 Proof. split; [exact w_cks_ok|vm_compute; reflexivity]. Qed.
 
+(** 2b. The same for the planner's printer itself (Sqlite/ExportPrint.v: sqlite/migrate.go addTable over a
+    model of sqlx.Builder, tied to the real PlanChanges text on every run, stage "print"): for EVERY table
+    [x] the printer accepts -- any columns, types, defaults, generated columns, primary key, foreign keys,
+    options -- whose CHECK constraints have names in \w+ (or none) and wrapped expressions, and whose text
+    before the constraints ([print_body]) does not contain the letters CHECK, fillChecks applied to the
+    printed CREATE TABLE returns exactly the table's constraints.  This is C03_regex_inverts_printer for
+    CHECK at full strength; the premise on the body cannot be dropped (3a). *)
+Theorem C03_regex_inverts_printer_checks :
+  forall x b3 txt,
+  print_body x = Some b3 -> print_table x = Some txt ->
+  occurs_ci K_CHECK (norm b3) = false ->
+  Forall check_wf (t_checks (x_t x)) ->
+  fill_checks txt = map kopt (t_checks (x_t x)).
+Proof. exact fill_checks_print_table. Qed.
+Print Assumptions C03_regex_inverts_printer_checks.
+
+Example C03_regex_inverts_printer_checks_nonvacuous :
+  print_table w_tab_full = Some w_tab_full_text /\
+  (exists b3, print_body w_tab_full = Some b3 /\ occurs_ci K_CHECK (norm b3) = false) /\
+  fill_checks w_tab_full_text = [(Some (B "ck"), B "(a > 0)"); (None, B "(length(b) > (1))")].
+Proof. split; [exact w_tab_full_print|split; [exact w_tab_full_body_free|vm_compute; reflexivity]]. Qed.
+
+(** 2c. setGenExpr on a generated column as the planner writes it -- after "(" or ",", spaces, `name`
+    (name in \w+), any comma-free text (type, NULL), AS, spaces, the wrapped expression: if no match of
+    the column's regexp starts earlier in the statement and no further "AS (" follows in the same
+    comma-free stretch, the expression is recovered exactly.  Both premises are decidable on the text
+    and both are necessary (3b). *)
+Theorem C03_regex_inverts_printer_genexpr :
+  forall name pre c sp1 mid w e rest,
+  name_ok name -> open_ch c = true -> forallb is_space sp1 = true ->
+  forallb not_comma mid = true -> forallb is_space w = true -> wrapped e ->
+  last_as (tl e ++ rest) = None ->
+  no_start_before _ (match_gen_at name)
+    (pre ++ c :: sp1 ++ bt_ident name ++ mid ++ K_AS ++ w ++ e ++ rest) (List.length pre) = true ->
+  set_gen_expr name (pre ++ c :: sp1 ++ bt_ident name ++ mid ++ K_AS ++ w ++ e ++ rest) = GenOk e.
+Proof. exact set_gen_expr_printed. Qed.
+Print Assumptions C03_regex_inverts_printer_genexpr.
+
+Example C03_regex_inverts_printer_genexpr_nonvacuous :
+  set_gen_expr (B "cx") w_tab_full_text = GenOk (B "(a + 1)") /\
+  no_start_before _ (match_gen_at (B "cx")) w_tab_full_text 104 = true.
+Proof. vm_compute. split; reflexivity. Qed.
+
+(** 2d. autoinc on a column as the planner writes it: `name` integer ... PRIMARY KEY AUTOINCREMENT. *)
+Theorem C03_regex_inverts_printer_autoinc :
+  forall name pre c sp1 w1 mid rest cols,
+  name_ok name -> open_ch c = true -> forallb is_space sp1 = true -> forallb is_space w1 = true ->
+  forallb not_comma mid = true -> In name cols ->
+  no_start_before _ match_autoinc_at
+    (pre ++ c :: sp1 ++ bt_ident name ++ ch_sp :: w1 ++ t_integer ++ ch_sp :: mid ++ PK_AUTOINC ++ rest) (List.length pre) = true ->
+  autoinc (pre ++ c :: sp1 ++ bt_ident name ++ ch_sp :: w1 ++ t_integer ++ ch_sp :: mid ++ PK_AUTOINC ++ rest) cols [name] = AutoOk name.
+Proof. exact autoinc_printed. Qed.
+Print Assumptions C03_regex_inverts_printer_autoinc.
+
+Example C03_regex_inverts_printer_autoinc_nonvacuous :
+  autoinc w_tab_full_text [B "id"; B "a"; B "b"; B "cx"; B "c"] [B "id"] = AutoOk (B "id").
+Proof. vm_compute. reflexivity. Qed.
+
+(** 2e. the predicate of a partial index as the planner writes it: if the letters WHERE (upper case)
+    do not occur before the keyword, the predicate is recovered (trimmed). *)
+Theorem C03_regex_inverts_printer_predicate :
+  forall pre c p, occurs_cs K_WHERE pre = false -> ~ In c K_WHERE ->
+  index_predicate (pre ++ c :: K_WHERE ++ p) = Some (trim_space p).
+Proof. exact index_predicate_printed. Qed.
+Print Assumptions C03_regex_inverts_printer_predicate.
+
 (** 3. The full statement "the recovery applied to the text the planner emits returns what was
     printed" is FALSE of inspect.go.  Each witness is a statement SQLite accepts and stores
     verbatim; each was reproduced on the real inspector (known findings of the same names).
@@ -59,6 +125,16 @@ Proof.
   vm_compute. discriminate.
 Qed.
 Print Assumptions C03_regex_inverts_printer_refuted_check.
+
+(** 3a'. ... and on the printer: the table t(a int, b text DEFAULT 'check (x)') has no CHECK constraint; the
+    planner prints it as shown and fillChecks finds one. *)
+Theorem C03_regex_inverts_printer_checks_refuted :
+  exists x txt, print_table x = Some txt /\ t_checks (x_t x) = [] /\ fill_checks txt <> [].
+Proof.
+  exists w_tab_default. eexists. split; [exact (proj1 w_tab_default_phantom)|split; [reflexivity|]].
+  rewrite (proj2 w_tab_default_phantom). discriminate.
+Qed.
+Print Assumptions C03_regex_inverts_printer_checks_refuted.
 
 (** 3b. setGenExpr: in the planner's own CREATE TABLE with generated columns `cx` AS (a + 1)
     and `c` AS (a * 2), column c is given cx's expression (the name is matched without a
